@@ -330,6 +330,16 @@ pub fn k02_rep(thorough: bool) -> Vec<G> {
             }
         }
     }
+    // the same sinks fed by `into_iter()` of an already collected list
+    for it in k02_items(thorough) {
+        for bd in [Bounds::STAR, Bounds::new(1, Some(2)), Bounds::new(0, Some(3))] {
+            for s in k02_sinks() {
+                if s != Sink::Str {
+                    out.push(with_rest(IntoIter(b(Rep(b(it.clone()), bd, Sink::Vec)), s)));
+                }
+            }
+        }
+    }
     out
 }
 
@@ -423,6 +433,11 @@ pub fn map_children(g: &G, f: &mut dyn FnMut(&G) -> G) -> G {
         RepCtx(a) => RepCtx(bx(a)),
         RepCtxMax(a) => RepCtxMax(bx(a)),
         TryRepCtx(a) => TryRepCtx(bx(a)),
+        RepCtxPre(a, x, k) => RepCtxPre(bx(a), *x, *k),
+        IntoIter(a, s) => {
+            let a = bx(a);
+            IntoIter(a, sink(s, &mut bx))
+        }
         Rep(a, bd, s) => {
             let a = bx(a);
             Rep(a, *bd, sink(s, &mut bx))
@@ -582,6 +597,8 @@ pub fn k_state() -> Class {
     let mut c = k_ext();
     c.name = "Kstate";
     c.leaves.push(Select("ac"));
+    // a user parser that advances with peek() + skip(): the skipped token must reach the inspector too
+    c.leaves.push(Custom(11, true));
     c.unary.push(u1(|a| Some(WithState(a))));
     c
 }
@@ -776,6 +793,25 @@ pub fn ctx_families() -> Vec<G> {
     ]
 }
 
+/// C15: a configuration from context applied on top of bounds already set on the parser:
+/// `item.repeated().<static bounds>.configure(exactly | at_most | at_least from ctx)`, under every context
+/// value (with_ctx) and with the count taken from the input (then_with_ctx), followed by a rest capture.
+pub fn ctx_pre_templates() -> Vec<G> {
+    let mut out = vec![];
+    for it in [Just('a'), Any, JustSeq('a', 'b'), Filter(b(Any))] {
+        for bd in k02_bounds(false, 3) {
+            for kind in 0..3u8 {
+                let core = || with_rest(RepCtxPre(b(it.clone()), bd, kind));
+                for c in ['a', 'b', 'c', 'd'] {
+                    out.push(WithCtx(c, b(core())));
+                }
+                out.push(ThenWithCtx(b(Any), b(core())));
+            }
+        }
+    }
+    out
+}
+
 /// Focused output-elision class (C04): emitters under every eliding combinator, deep enough for an
 /// iteration that emits and then fails.
 pub fn k04_deep() -> Class {
@@ -814,4 +850,29 @@ pub fn k_labelctx() -> Class {
     let unary = vec![u1(|a| Some(Labelled(a, true))), u1(|a| Some(OrNot(a)))];
     let binary = vec![u2(|a, c| Some(Then(a, c))), u2(|a, c| Some(Or(a, c)))];
     Class { name: "Klabelctx", leaves, unary, binary, ternary: vec![] }
+}
+
+/// Focused map_err class (C17): a map_err'd parser that *succeeds* leaving an error behind (or_not), next to
+/// errors with multi-token spans (try_map over a sequence) and context stacks (as_context) pending at the
+/// same position - so that the direction in which map_err merges errors back is observable.
+pub fn k_maperr() -> Class {
+    let leaves = vec![Just('a'), Just('b'), Any];
+    let unary = vec![u1(|a| Some(MapErr(a))), u1(|a| Some(TryMap(a))), u1(|a| Some(OrNot(a))), u1(|a| Some(Labelled(a, true)))];
+    let binary = vec![u2(|a, c| Some(Then(a, c))), u2(|a, c| Some(Or(a, c)))];
+    Class { name: "Kmaperr", leaves, unary, binary, ternary: vec![] }
+}
+
+/// Focused failed-recovery class (C08): emitters inside parsers and inside recovery strategies, no other
+/// backtracking construct - so that what a recover_with leaves behind when both its parser and its strategy
+/// fail ("fails with that same error and consumes nothing") shows in the error list of the failed parse.
+pub fn k_recfail() -> Class {
+    let leaves = vec![Just('a'), Just('b'), Any];
+    let unary = vec![u1(|a| Some(Validate(a, 1)))];
+    let binary = vec![
+        u2(|a, c| Some(Then(a, c))),
+        u2(|a, f| Some(Recover(a, f))),
+        u2(|a, u| Some(SkipUntil(a, b(Any), u))),
+        u2(|a, u| Some(Retry(a, b(Any), u))),
+    ];
+    Class { name: "Krecfail", leaves, unary, binary, ternary: vec![] }
 }
